@@ -126,6 +126,26 @@ func c07Gen(r *verifh.Rand, i int) interface{} {
 // path-level limit, or the rules as well. The path-level limit is mostly unset so that the server level decides.
 func c07ReloadGen(r *verifh.Rand, i int) interface{} {
 	sc := pxScenario{Host: "client.example"}
+	if r.Bool(1, 6) {
+		// memoryCache histories (seeded change C07-m6): a pool with a memoryCache and a response limit; EVERY backend
+		// answer of the history is larger than the limit in force, so each one must be withheld (5xx) and none may ever
+		// be stored: every step has to contact the backend again. A rejected response that was cached shows as a
+		// later step answered without the backend (judge: `reload:cache:rejected-response-served-from-cache`).
+		lim := r.PickInt(16, 64, 1000)
+		sc.Cfg = pxCfg{Server: "ip", Compression: -1, PoolMax: int64(lim),
+			Cache: &pxCache{Codes: []int{200, 201}, Methods: []string{"GET"}, MaxEntryBytes: 65536}}
+		if r.Bool(1, 3) {
+			sc.Cfg.PoolMax, sc.Cfg.ProxyMax = 0, int64(lim)
+		}
+		path := r.Pick("/", "/a/b")
+		status := r.PickInt(200, 200, 201)
+		for k, n := 0, r.Range(2, 4); k < n; k++ {
+			b := pxBackend{Status: status, Hdrs: [][2]string{{"X-B", "b"}}}
+			b.Body = pxBody{Len: lim + r.PickInt(1, 1, 48), Seed: 7, Kind: "text", Enc: r.Pick("cl", "chunked")}
+			sc.Steps = append(sc.Steps, pxStep{Method: "GET", Path: path, Host: "client.example", Body: pxBody{Enc: "none"}, Backend: b})
+		}
+		return sc
+	}
 	lims := []int64{16, 64, 1000, 4096, -1, 0, math.MaxInt64, math.MaxInt64 - 1}
 	pick := func() int64 { return lims[r.Intn(len(lims))] }
 	sc.Cfg = pxCfg{Server: "ip", Compression: -1, PathMax: int64(r.PickInt(0, 0, 0, 0, 32)), ServerMax: pick()}
